@@ -1,6 +1,7 @@
 (* C06 - multi-hop packets: at-most-once delivery and forwarding, shrinking hop budget.
    Audited statements only; proofs in Proofs/LocTProofs.v and Proofs/RouterProofs.v. *)
-From FlexVerif Require Import Base.Prelude Model.LocT Model.Wire Model.Router Proofs.LocTProofs Proofs.RouterProofs.
+From FlexVerif Require Import Base.Prelude Base.Bits Model.LocT Model.Wire Model.Router Proofs.LocTProofs Proofs.RouterProofs
+  Proofs.ForwardCopy.
 
 (* -- duplicate detection: once (SO, SN) was accepted, a duplicate is rejected for as long as fewer than
       itsGnDPLLength other sequence numbers of SO have been accepted since -- *)
@@ -72,6 +73,18 @@ Theorem C06_cbf_buffered_copy_has_rhl_minus_1 : forall m s now g bv cv body k p,
   In (k, p) (s_cbf s) \/ (1 < arg 5 bv /\ exists rest, p = enc_basic (bv_rhl bv (arg 5 bv - 1)) ++ rest).
 Proof. exact gbc_cbf_buffered. Qed.
 Print Assumptions C06_cbf_buffered_copy_has_rhl_minus_1.
+
+(* -- a forwarded TSB packet is, octet for octet, the received packet with RHL - 1, for every conformant
+      packet (reserved bits zero; re-encoding the decoded headers is the identity).  For the other packet
+      types this octet-level clause is checked by the oracle and the correspondence, see design/C06.md -- *)
+Theorem C06_forwarded_tsb_is_octet_copy : forall m s now g pkt bv cv p,
+  wf_bytes pkt = true -> (40 <= length pkt)%nat ->
+  dec_basic pkt = Some bv -> dec_common (skipn 4 pkt) = Some cv -> arg 1 cv = 5 -> arg 2 cv = 1 ->
+  common_conformant (skipn 4 pkt) -> lpv_conformant (skipn 16 pkt) ->
+  In (OFwd p) (snd (rx m s now g pkt)) ->
+  p = firstn 3 pkt ++ [arg 5 bv - 1] ++ skipn 4 pkt.
+Proof. exact tsb_forward_is_copy. Qed.
+Print Assumptions C06_forwarded_tsb_is_octet_copy.
 
 (* -- unicast: the destination position vector is refreshed only by a strictly newer one of a neighbour -- *)
 Theorem C06_de_pv_refreshed_only_by_newer : forall t de, refresh_de t de = de \/
